@@ -189,7 +189,22 @@ mutual
       (.record a.1 :: b.1, b.2)
 end
 
-def genValue (S : Schema) (i : Nat) : List Val := (genFs S.fields i 0).1
+/-- values that once exposed a defect, kept at the front of the class's family (index 0, 1, …) -/
+def regression (cls : String) : List (List Val) :=
+  let fast : List Val := [.list [], .flag true]                       -- tls0rtt lost before /repo e3c2af8
+  let sasl2 : List Val := [.list [], .record [.absent, .record fast, .absent]]
+  if cls == "FastFeature" then [fast]
+  else if cls == "Sasl2StreamFeature" then [sasl2]
+  else if cls == "StreamFeatures" then
+    [[.absent, .absent, .absent, .absent, .absent, .absent, .absent, .absent, .absent,
+      .record [.list []], .record [.list []], .record sasl2]]
+  else []
+
+def genValue (cls : String) (S : Schema) (i : Nat) : List Val :=
+  let reg := regression cls
+  match reg[i]? with
+  | some v => v
+  | none => (genFs S.fields (i - reg.length) 0).1
 
 /-- number of choice points when everything is present (decides how large the exhaustive part is) -/
 def familySize (S : Schema) : Nat :=
@@ -234,14 +249,14 @@ def step (line : String) : Option String :=
       match readVals arg with
       | some v => if S.Canon v then canon (S.encode v) else "not-canonical"
       | none => "bad-values"
-    else if op == "codec-count" then withClass cls fun S => toString (familySize S)
+    else if op == "codec-count" then withClass cls fun S => toString (familySize S + (regression cls).length)
     else if op == "codec-gen" then withClass cls fun S =>
       match arg.trimAscii.toString.toNat? with
-      | some i => canon (S.encode (genValue S i))
+      | some i => canon (S.encode (genValue cls S i))
       | none => "bad-index"
     else if op == "codec-val" then withClass cls fun S =>
       match arg.trimAscii.toString.toNat? with
-      | some i => showVals (genValue S i)
+      | some i => showVals (genValue cls S i)
       | none => "bad-index"
     else "bad-op"
 
